@@ -260,22 +260,22 @@ Definition class_rt_ok (W R : prog) : bool :=
   let '(A, We) := split_pre W in
   pre_ok A && negb (existsb (Z.eqb (sp_field sp)) (map fst A)) && pair_wr cs sp (pre_M A) [] We R.
 
-Theorem object_roundtrip W R : class_rt_ok W R = true ->
+Theorem object_roundtrip_stream W R : class_rt_ok W R = true ->
   let A := fst (split_pre W) in let We := snd (split_pre W) in
   forall s s' bytes,
     run_w cs call cap W s no_locals = Ok (s', bytes) ->
     wf_state cs s -> defined_on (wfields We ++ deriv_conts A) s ->
     s (sp_field sp) = VInt (sp_sig sp) -> pre_guard A s ->
-  forall r rest, wf_state cs r -> defined_on (wfields We) r ->
+  forall r i rest, nstream i -> s_after i = bytes ++ rest -> wf_state cs r -> defined_on (wfields We) r ->
   exists r' i',
-    run_r cs call sp cap R r no_locals (mk_ustream (bytes ++ rest)) = Ok (r', i') /\
-    nstream i' /\ s_after i' = rest /\
+    run_r cs call sp cap R r no_locals i = Ok (r', i') /\
+    nstream i' /\ s_after i' = rest /\ (s_good i = true -> s_good i' = true) /\
     agree_on (emitted cs call We s') r' s' /\
     (forall f, ~ In f (emitted cs call We s') -> r' f = r f) /\
     (forall f, ~ In f (map fst A) -> s' f = s f).
 Proof using cap_ge sig_range.
   unfold class_rt_ok. destruct (split_pre W) as [A We] eqn:Esp. cbn [fst snd].
-  intros Hok s s' bytes Hrun Hws Hds Hsig Hguard r rest Hwr Hdr.
+  intros Hok s s' bytes Hrun Hws Hds Hsig Hguard r i rest Hi Hafter Hwr Hdr.
   apply andb_prop in Hok. destruct Hok as [Hok Hpair]. apply andb_prop in Hok. destruct Hok as [Hpre Hnsig].
   destruct (pre_ok_entries A Hpre) as [Hent Hnd].
   rewrite (run_w_split W s A We Esp) in Hrun.
@@ -299,14 +299,56 @@ Proof using cap_ge sig_range.
   assert (Hdr' : defined_on (emitted cs call We s') r).
   { intros f Hf. apply Hdr. eapply emitted_wfields; eauto. }
   destruct (pair_sound cs call sp cap cap_ge sig_range We (pre_M A) [] R s' bytes Hpair Hrun HM Hws' Hds' Hsig'
-              r (mk_ustream (bytes ++ rest)) rest (nstream_mk _) eq_refl) as (r' & i' & Hr & P1 & P2 & P3 & P4 & P5);
+              r i rest Hi Hafter) as (r' & i' & Hr & (P1 & P2 & P3 & P4 & P5) & Pg);
     try assumption.
   { intros f Hf. contradiction. }
-  exists r', i'. split; [exact Hr|]. split; [exact P1|]. split; [exact P2|]. split.
+  exists r', i'. split; [exact Hr|]. split; [exact P1|]. split; [exact P2|]. split; [exact Pg|]. split.
   - intros f Hf. apply P3. apply in_or_app. left. exact Hf.
   - split; [exact P4|]. intros f Hf. eapply run_pre_frame; eauto.
 Qed.
 
+
+(* what write() leaves behind: the emission part run from the state with the derived members filled in *)
+Lemma object_write_facts W R : class_rt_ok W R = true ->
+  let A := fst (split_pre W) in let We := snd (split_pre W) in
+  forall s s' bytes,
+    run_w cs call cap W s no_locals = Ok (s', bytes) ->
+    wf_state cs s -> defined_on (wfields We ++ deriv_conts A) s ->
+    s (sp_field sp) = VInt (sp_sig sp) -> pre_guard A s ->
+  run_w cs call cap We s' no_locals = Ok (s', bytes) /\ wf_state cs s' /\
+  defined_on (emitted cs call We s') s' /\ s' (sp_field sp) = VInt (sp_sig sp).
+Proof using cap_ge sig_range.
+  unfold class_rt_ok. destruct (split_pre W) as [A We] eqn:Esp. cbn [fst snd].
+  intros Hok s s' bytes Hrun Hws Hds Hsig Hguard.
+  apply andb_prop in Hok. destruct Hok as [Hok Hpair]. apply andb_prop in Hok. destruct Hok as [Hpre Hnsig].
+  rewrite (run_w_split W s A We Esp) in Hrun.
+  destruct (run_pre A s) as [s1|] eqn:Epre; [|discriminate]. cbn [bind] in Hrun.
+  assert (Hs1 : s' = s1) by (eapply run_w_pure_state; eauto). subst s1.
+  split; [exact Hrun|]. split; [eapply run_pre_wf; eauto|]. split.
+  - intros f Hf. apply (run_pre_defined A s s' _ Epre Hds). apply in_or_app. left. eapply emitted_wfields; eauto.
+  - rewrite (run_pre_frame A s s' Epre); [exact Hsig|]. apply not_in_known. exact Hnsig.
+Qed.
+
+(* the special case of a stream that starts at the object *)
+Theorem object_roundtrip W R : class_rt_ok W R = true ->
+  let A := fst (split_pre W) in let We := snd (split_pre W) in
+  forall s s' bytes,
+    run_w cs call cap W s no_locals = Ok (s', bytes) ->
+    wf_state cs s -> defined_on (wfields We ++ deriv_conts A) s ->
+    s (sp_field sp) = VInt (sp_sig sp) -> pre_guard A s ->
+  forall r rest, wf_state cs r -> defined_on (wfields We) r ->
+  exists r' i',
+    run_r cs call sp cap R r no_locals (mk_ustream (bytes ++ rest)) = Ok (r', i') /\
+    nstream i' /\ s_after i' = rest /\
+    agree_on (emitted cs call We s') r' s' /\
+    (forall f, ~ In f (emitted cs call We s') -> r' f = r f) /\
+    (forall f, ~ In f (map fst A) -> s' f = s f).
+Proof using cap_ge sig_range.
+  intros Hok A We s s' bytes Hrun Hws Hds Hsig Hguard r rest Hwr Hdr.
+  destruct (object_roundtrip_stream W R Hok s s' bytes Hrun Hws Hds Hsig Hguard r (mk_ustream (bytes ++ rest)) rest (nstream_mk _) eq_refl Hwr Hdr)
+    as (r' & i' & H1 & H2 & H3 & _ & H4 & H5 & H6).
+  exists r', i'. split; [exact H1|]. split; [exact H2|]. split; [exact H3|]. split; [exact H4|]. split; [exact H5|exact H6].
+Qed.
 
 (* ---------- the encoder stays inside the caller's containers ---------- *)
 Ltac errne H := cbn [bind]; let E := fresh in intros E; apply H; injection E as ->; reflexivity.
